@@ -129,14 +129,21 @@ func (m *mux) Vars(r *http.Request) map[string]string {
 	if len(params.Keys) == 0 {
 		return nil
 	}
+	// chi routes on the escaped path (URL.RawPath) when there is one and on the
+	// already decoded URL.Path otherwise: only values captured from the
+	// escaped path are still encoded.
+	decode := unescape
+	if r.URL.RawPath == "" {
+		decode = func(s string) string { return s }
+	}
 	vars := make(map[string]string, len(params.Keys))
 	for i, k := range params.Keys {
 		if k == "*" {
 			wildcard := m.wildcards[r.Method+"::"+ctx.RoutePattern()]
-			vars[wildcard] = unescape(params.Values[i])
+			vars[wildcard] = decode(params.Values[i])
 			continue
 		}
-		vars[k] = unescape(params.Values[i])
+		vars[k] = decode(params.Values[i])
 	}
 	return vars
 }
